@@ -43,6 +43,7 @@ def parse_xs(s):
 
 
 CG_KINDS = ("sxp", "weibull", "gumbeltrunc", "gev")
+SXP_UNSET_KEY = "C11:esl_sxp_cdf:unset-value"
 
 # ------------------------------------------------------------------------------------------------
 # log-likelihoods (python floats, fsum) used by the monitors
@@ -246,7 +247,7 @@ class C11(Prop):
         "plot_accounts_for_data", "plot_survival_accounts_for_data", "plot_qq_in_bounds", "declare_rounding_keeps_the_data",
         # round 6
         "sxp_objective_is_neg_loglik", "sxp_rate_is_maximiser", "sxp_rate_closed_form", "weibull_binned_objective_is_neg_loglik", "weibull_cdf_is_distribution_function",
-        "gev_fit_post", "gev_objective_is_neg_loglik", "gev_gradient_is_derivative")]
+        "gev_fit_post", "gev_objective_is_neg_loglik", "gev_gradient_is_derivative", "sxp_binned_fit_post", "sxp_binned_objective_is_neg_loglik")]
     claimed = True
     technique = ("Lean 4 proof over an executable line-by-line model (numeric class: Float for the bit-exact differential run, Q/R for the theorems) "
                  "+ bit-exact correspondence with the ASan/UBSan-built C code + exact-rational / log-likelihood property monitors")
@@ -278,8 +279,10 @@ class C11(Prop):
                   "NOT a theorem: that the conjugate-gradient stopping rule (relative decrease of f below 1e-5) makes the gradient small, so 'the point reached maximises the likelihood' is proved only "
                   "conditionally (Weibull: bounded by the derivatives at the point; stationarity => global maximum); monitored: local pattern search, fit >= generating parameters, recovery on exact "
                   "quantile grids of every family. Gamma stationarity in tau (digamma; the code uses its own series), stretched-exponential shape in tau and GEV likelihood shape (concavity): not proved. "
-                  "Not modelled (monitors only): stretched-exponential binned fit (esl_sxp_cdf ignores the status of "
-                  "esl_stats_IncompleteGamma and may return an unset value for extreme parameters), esl_histogram_Write/Print and the number formatting of the plots, esl_gumbel/esl_exp tail fits. "
+                  "esl_sxp_FitCompleteBinned is modelled (esl_sxp_cdf through the model's IncompleteGamma; objective = -sum obs*log(cdf differences), documented status/location) and compared "
+                  "exactly; KNOWN FINDING C11:esl_sxp_cdf:unset-value: esl_sxp_cdf ignores the status of esl_stats_IncompleteGamma and returns an uninitialised double when it fails "
+                  "(lambda = inf, tau = 0/inf, NaN) - the model answers NaN there (proposed repair), a divergence of hsxpfit is excused only when a side shows eslERANGE/non-finite parameters. "
+                  "Not modelled (monitors only): esl_histogram_Write/Print and the number formatting of the plots, esl_gumbel/esl_exp tail fits. "
                   "Log-normal sigma uses the n-1 variance, not the ML n; libm and libc qsort are trusted. "
                   "Genuine defects found while building this check and repaired in /repo: b44f0f8 7d6f911 fd84f7f bad2f4e 2487976 935fded 9b72a6e 6f20587 6da6a89 8354c02 6815f41; their witnesses are corpus regression cases.")
     diverge_is_violation = True
@@ -296,7 +299,8 @@ class C11(Prop):
                    "FitCensored FitCensoredLoc FitTruncated (tevd_func tevd_grad); esl_wei_FitComplete FitCompleteBinned; esl_sxp_FitComplete; esl_gam_FitComplete FitCountHistogram FitCompleteBinned; "
                    "esl_gev_FitComplete FitCensored (fitting_engine gev_func gev_gradient esl_gev_logpdf esl_gev_logcdf; log1p = the libm symbol on the Float side, log(1+x) over R); "
                    "esl_min_ConjugateGradientDescent numeric_derivative bracket brent (incl. ESL_MIN_DAT); esl_root_Bisection NewtonRaphson",
-                   "not modelled (implementation-side monitors only): esl_sxp_FitCompleteBinned, histogram Write/Print (text formatting), allocation failure paths"]
+                   "esl_sxp_FitCompleteBinned (esl_sxp_cdf, sxp_complete_binned_func, esl_stats_IncompleteGamma P(a,x)); static gev_func/gev_gradient evaluated directly (op gevobj)",
+                   "not modelled (implementation-side monitors only): histogram Write/Print (text formatting), allocation failure paths"]
     rule = ("cases = histogram operation histories (create, batches of Adds that force repeated growth below and above, edge values +-1 ulp, ties, non-finite and out-of-int-range values, "
             "rank/tail/censoring queries, Add after finishing) and data sets (exact quantile grids, the library's own samplers, ties, outliers, scales 1e-6..1e6, censoring 0..0.9, degenerate sets) "
             "run through every fit; non-trivial = at least one ok answer and no fault; distinct by output trace")
@@ -352,6 +356,13 @@ class C11(Prop):
                 # degenerate data (fewer than two distinct values): outside the property's quantifier except for termination and
                 # a status; the numbers returned are 0/0 artefacts, only the status has to agree
                 if a.split(" ")[0] == b.split(" ")[0]: continue
+            if a != b and op.startswith("hsxpfit") and (self.sxp_unset_signature(a) or self.sxp_unset_signature(b)):
+                # KNOWN FINDING C11:esl_sxp_cdf:unset-value (patch proposed, /var/tmp/fixes-proposed/C11-sxp-cdf-unset.patch): esl_sxp_cdf() returns an
+                # uninitialised double when esl_stats_IncompleteGamma() fails (lambda = inf, tau = 0/inf, NaN); the model returns NaN there (the
+                # repaired behaviour), so a run that went through a non-finite objective (status eslERANGE / non-finite parameters on either
+                # side) may legitimately differ until the repair lands. A difference between two finite eslOK/eslENOHALT answers is NOT excused.
+                case["known_key"] = SXP_UNSET_KEY
+                return (i, a, b)
             if a != b and not self.close(op, a, b):
                 # a dump that differs only in how values within rounding distance of a bin edge were placed (the shifted bmin of a
                 # different - harmless - allocation policy rounds differently; layer L0) is accepted when the implementation's own
@@ -364,6 +375,17 @@ class C11(Prop):
                         return None      # from here on the two sides hold (legitimately) different counts near bin edges: monitors only
                 return (i, a, b)
         return None
+
+    @staticmethod
+    def sxp_unset_signature(line):
+        w = line.split(" ")
+        if w[0] == "erange": return True
+        for t in w[1:]:
+            try:
+                if not math.isfinite(fbits(t)): return True
+            except Exception:
+                pass
+        return False
 
     def close(self, op, a, b):
         """Statuses, integers, counts and every copied value must agree exactly; COMPUTED doubles (fitted parameters, shifted bin
@@ -759,6 +781,17 @@ class C11(Prop):
             mk = meta["mu"] if (kind == "gamma" and meta["mod"] == "none" and all(x > meta["mu"] for x in xs)) else None
             ops += [o for o in self.fit_ops(xs, rng, kinds, meta["lambda"] if kind == "gumbel" else None, mk) if "gumbelcens" not in o and "gumbeltrunc" not in o
                     and not (n > 1000 and kv(o).get("kind") in CG_KINDS)]
+            if kind in ("gev", "gumbel") and len(xs) <= 1000:
+                # gev_func / gev_gradient evaluated directly (exact comparison) at points that reach every branch: alpha around 0 (|alpha*y| < 1e-12:
+                # the Gumbel shortcut), mu ON a sample (y = 0), parameters that push samples out of the support (1 + alpha*y <= 0), censored term
+                lam_t = meta["lambda"] if meta["lambda"] > 0 else 1.0
+                for _ in range(4):
+                    al = rng.choice([0.0, 1e-14, -1e-13, 1e-12 * lam_t, 1e-4, 0.1, 0.3, -0.2, -1.0, 2.0, 1e-9])
+                    m0 = rng.choice([meta["mu"], rng.choice(xs), min(xs), max(xs), sum(xs) / len(xs), meta["mu"] - 3.0 / lam_t])
+                    w0 = math.log(lam_t * rng.choice([0.5, 1.0, 1.0, 2.0, 1e-3]))
+                    cens = rng.random() < 0.4
+                    ops.append("gevobj p=%s,%s,%s cens=%d z=%d a=%s" % (d(m0), d(w0), d(al), 1 if cens else 0, rng.choice([0, 1, 7, len(xs)]),
+                                                                       d(rng.choice([min(xs), m0, min(xs) - 1.0 / lam_t, m0 - 2.0 / (lam_t * abs(al)) if al else m0]))))
             cases.append({"name": "fit%d-%s-%s-n%d-%s" % (i, kind, src, n, meta["mod"]), "ops": ops, "sticky": 1, "meta": meta})
             if kind == "gumbel" and len(xs) >= 3:
                 # censored / truncated variants: censoring fraction 0..0.9, truncation threshold across the support
@@ -799,6 +832,18 @@ class C11(Prop):
             ops = ["data xs=" + ",".join(d(x) for x in xs), "fit kind=gumbel", "fit kind=gumbelcens z=%d a=%s" % (rng.choice([0, 1, 5]), d(lo - sc)),
                    "fit kind=gumbelloc a=%s" % d(1 / sc), "fit kind=exp"]
             cases.append({"name": "fit-cluster-%d" % j, "ops": ops, "sticky": 1, "meta": {"law": "none", "mod": "cluster"}})
+        # data sets at the boundaries of the quantifier (n = 2, 3; the minimum repeated; censoring z = 0, z = n-1, z >> n), compared exactly
+        for j in range(6):
+            n = rng.choice([2, 2, 3, 3, 4])
+            base = rng.choice([0.0, -20.0, 5.0, 1000.0]); sc = rng.choice([1e-3, 1.0, 1.0, 50.0])
+            xs = [base + sc * rng.choice([rng.random(), rng.randrange(1, 9)]) for _ in range(n)]
+            if rng.random() < 0.4 and n > 2: xs[1] = xs[0] = min(xs)           # the smallest observation twice
+            if len(set(xs)) < 2: xs[-1] = xs[0] + sc
+            lo = min(xs)
+            ops = ["data xs=" + ",".join(d(x) for x in xs)] + self.fit_ops(xs, rng, ["exp", "expscale", "gumbel", "gumbelloc", "gumbeltrunc", "weibull", "sxp", "gamma", "gev"])
+            for zz in (0, n - 1, 1000):
+                ops += ["fit kind=gumbelcens z=%d a=%s" % (zz, d(lo - sc * rng.choice([0.0, 1e-9, 1.0]))), "fit kind=gevcens z=%d a=%s" % (zz, d(lo - sc * rng.choice([0.0, 1.0])))]
+            cases.append({"name": "fit-boundary-%d-n%d" % (j, n), "ops": ops, "sticky": 1, "meta": {"law": "none", "mod": "boundary"}})
         # degenerate inputs: termination / documented failure status
         for xs in ([], [1.0], [2.0, 2.0], [1.0, 2.0], [0.0, 0.0, 0.0, 1e-300], [1e150, 2e150, 3e150], [-5.0, -4.0, -3.0], [1e-310, 2e-310, 5e-310]):
             # n = 0 is only documented for the exponential and Gumbel fits (eslEINVAL); the others require n > 0
@@ -1481,6 +1526,7 @@ class C11(Prop):
         distinct = len(set(xs)) >= 2
         for op, l in zip(ops[1:], out[1:]):
             if l.startswith(("fault", "atexit")): return None
+            if not op.startswith("fit "): continue           # (gevobj: compared exactly with the model, nothing to monitor)
             a = kv(op); kind = a.get("kind")
             w = l.split()
             st = w[0]
